@@ -26,4 +26,7 @@ def check(model, tier):
     from ..rules import mutation as _mutation
 
     _mutation.r09_4_no_shared_mutation(ctx)
+    from ..rules import foldeval as _foldeval
+
+    _foldeval.r13_5_folding(ctx)
     return run
